@@ -27,14 +27,19 @@ def sh(cmd, cwd=None, env=None, timeout=3600):
 
 def main():
     pid = sys.argv[1]
-    extra = sys.argv[2:]
+    letters = "AB"
+    args = sys.argv[2:]
+    if args and args[0].startswith("--letters="):
+        letters = args[0].split("=", 1)[1]
+        args = args[1:]
+    extra = args
     wt = "/tmp/mut-" + pid
     prop = None
     for line in open(os.path.join(VERIF, "properties.jsonl")):
         p = json.loads(line)
         if p["id"] == pid:
             prop = p
-    for m in ("A", "B"):
+    for m in letters:
         diff = os.path.join(wt, "mutant%s.diff" % m)
         demo = os.path.join(wt, "demo%s.py" % m)
         if not (os.path.exists(diff) and os.path.exists(demo)):
@@ -73,7 +78,7 @@ def main():
         os.makedirs(dest, exist_ok=True)
         shutil.copy(diff, os.path.join(dest, "patch.diff"))
         shutil.copy(demo, os.path.join(dest, "demo.py"))
-        notes = os.path.join(wt, "notes.md")
+        notes = os.path.join(wt, "notes.md" if m in "AB" else "notes2.md")
         if os.path.exists(notes):
             shutil.copy(notes, os.path.join(dest, "notes.md"))
         meta = {
